@@ -69,6 +69,7 @@ def bytesIntoHash (n : Nat) (b : Bytes) : Outcome Bytes :=
 def exprIntoBytes : Expr → Outcome Bytes
   | .leaf (.bytes b) => .ok b
   | .leaf (.string s) => .ok s.toUTF8.toList
+  | .leaf (.hash b) => .ok b
   | _ => cerr "Bytes"
 
 /-- The subset of `pallas::Address::from_bytes` the generators exercise: Shelley base (57 bytes),
